@@ -9,4 +9,9 @@ def main(pid, path):
             core.build_tools(); core.translate()
         b = core.build_driver(cfg); out = core.run_driver(b, ['%d %s' % (did, ' '.join(words))])
         print('current tree (%s): %s' % (cfg, out))
+        if 'assert_build' in d:      # C20: the same call on the build with glam-assert
+            idx = core.Index(); key = d.get('function') or d.get('meta', {}).get('key')
+            fa = next((f for f in idx.fns(cfg + '+assert') if f['key'] == key), None)
+            if fa is not None and fa['did'] is not None:
+                print('current tree (%s): %s' % (cfg + '+assert', core.run_driver(core.build_driver(cfg + '+assert'), ['%d %s' % (fa['did'], ' '.join(words))])))
     return 0
